@@ -286,7 +286,7 @@ def ev(e, env: Env):
         op = e[1]
         l = ev(e[2], env)
         r = ev(e[3], env)
-        if isinstance(l, Bun) or isinstance(r, Bun):
+        if isinstance(l, (Bun, Quant, BunCmp)) or isinstance(r, (Bun, Quant, BunCmp)):
             return ev_bundle_bin(op, l, r)
         a, b = val(l), val(r)
         if op in ARITH:
